@@ -16,6 +16,8 @@ structure Rec where
   payload : Bytes
   /-- the protected packet as the implementation produced it -/
   data : Bytes
+  /-- name of the key material installed when it was sealed -/
+  epoch : String := ""
 deriving Repr
 
 /-- the mutation of an open op applied to the stored packet -/
